@@ -1,5 +1,6 @@
 import ScyllaVerif.Model.Util
 import ScyllaVerif.Model.StreamMap
+import ScyllaVerif.Model.C02StreamIdWords
 import ScyllaVerif.Model.Conn
 import ScyllaVerif.Model.FrameStream
 import ScyllaVerif.Model.ConnIO
@@ -107,6 +108,82 @@ def runMap (ops : List String) : String :=
   match go ops ⟨HMap.new, 1000000, []⟩ with
   | none => "bad-case"
   | some st => ",".intercalate st.out.reverse
+
+/-! ### the bare bitmap (`ids …`): `A<n>`, `a`, `f<i16>`, `F<from>:<n>`, `V`, `D` — every step is `C02StreamIdWords.idStep` -/
+
+open ScyllaVerif.C02StreamIdWords in
+def idsBulk : Nat → StreamIdSet → Nat → Nat → Option Int → Option Int → (StreamIdSet × Nat × Nat × Option Int × Option Int)
+  | 0, s, ok, failed, first, last => (s, ok, failed, first, last)
+  | n + 1, s, ok, failed, first, last =>
+    match idStep s .alloc with
+    | (s', some id) => idsBulk n s' (ok + 1) failed (first.orElse fun _ => some id) (some id)
+    | (s', none) => idsBulk n s' ok (failed + 1) first last
+
+open ScyllaVerif.C02StreamIdWords in
+def idsFreeRange : Nat → Nat → StreamIdSet → StreamIdSet
+  | 0, _, s => s
+  | n + 1, id, s => idsFreeRange n (id + 1) (idStep s (.free id)).1
+
+def optIntStr : Option Int → String
+  | none => "-"
+  | some n => toString n
+
+/-- Ranges `a-b` joined by `+` (`-` if empty) of an increasing list. -/
+def idRanges (ids : List Nat) : String :=
+  let rec go : List Nat → Nat → Nat → List String → List String
+    | [], lo, hi, acc => (s!"{lo}-{hi}" :: acc).reverse
+    | id :: rest, lo, hi, acc =>
+      if id == hi + 1 then go rest lo id acc else go rest id id (s!"{lo}-{hi}" :: acc)
+  match ids with
+  | [] => "-"
+  | id :: rest => "+".intercalate (go rest id id [])
+
+open ScyllaVerif.C02StreamIdWords in
+def idsOp (s : StreamIdSet) (op : String) : Option (StreamIdSet × String) :=
+  match splitOp op with
+  | none => none
+  | some (c, arg) =>
+    if c == 'a' then
+      if arg != "" then none else
+      match idStep s .alloc with
+      | (s', some id) => some (s', toString id)
+      | (s', none) => some (s', "full")
+    else if c == 'A' then
+      match arg.toNat? with
+      | some n =>
+        if n > 40000 then none else
+        let (s', ok, failed, first, last) := idsBulk n s 0 0 none none
+        some (s', s!"A{ok}/{failed}:{optIntStr first}-{optIntStr last}")
+      | none => none
+    else if c == 'f' then
+      match arg.toInt? with
+      | some id =>
+        if id < -32768 || id > 32767 then none else
+        match freeI16 s id with
+        | some _ => some ((idStep s (.free id)).1, "f")
+        | none => some ((idStep s (.free id)).1, "panic")
+      | none => none
+    else if c == 'F' then
+      match arg.splitOn ":" |>.mapM String.toNat? with
+      | some [a, n] => if a + n > idCount then none else some (idsFreeRange n a s, "F")
+      | _ => none
+    else if c == 'V' || c == 'D' then
+      if arg != "" then none else
+      let (got, full) := drain (idCount + 1) s []
+      let sorted := got.mergeSort (fun a b => a ≤ b)
+      some (if c == 'V' then freeAll full got else full, s!"{c}{idRanges sorted}")
+    else none
+
+def runIds (ops : List String) : String :=
+  let rec go : List String → StreamIdSet → List String → Option (List String)
+    | [], _, out => some out.reverse
+    | op :: rest, s, out =>
+      match idsOp s op with
+      | none => none
+      | some (s', o) => go rest s' (o :: out)
+  match go ops StreamIdSet.new [] with
+  | none => "bad-case"
+  | some out => ",".intercalate out
 
 /-! ### connection level -/
 
@@ -549,6 +626,8 @@ def run (case _impl : String) : String :=
   match words case with
   | ["map", ops] => runMap (splitOps ops)
   | ["map"] => runMap []
+  | ["ids", ops] => runIds (splitOps ops)
+  | ["ids"] => runIds []
   | ["conn", wc, ops] =>
     if wc == "0" || wc == "1" then runConn (splitOps ops)
     else if wc.startsWith "m" then
